@@ -802,3 +802,89 @@ Qed.
 (* w = v, or w is not a prefix of v (used by the obligation on the BR_TAG alternatives) *)
 Definition list_eq_or_not_prefix (w v : text) : bool :=
   if starts_with w v then (length w =? length v) else true.
+
+(* ================= the boolean predicates evaluated on the implementation's output are sound ================= *)
+(* (the correspondence shards evaluate tiles_b / ends_after_terminator_b on the ranges the implementation reported) *)
+Fixpoint with_slices (data : text) (rs : list (nat * nat)) : list (nat * nat * text) :=
+  match rs with
+  | [] => []
+  | (b, e) :: tl =>
+      match split_bytes (e - b) data with
+      | Some (sl, rest) => (b, e, sl) :: with_slices rest tl
+      | None => []
+      end
+  end.
+
+Lemma tiles_b_sound : forall rs pos data, tiles_b pos data rs = true ->
+  tiles pos data (with_slices data rs) /\ map (fun x => (fst (fst x), snd (fst x))) (with_slices data rs) = rs.
+Proof.
+  induction rs as [|[b e] tl IH]; intros pos data H; cbn [tiles_b] in H.
+  - destruct data; [|discriminate]. cbn. auto.
+  - destruct ((b =? pos) && (b <? e)) eqn:E; [|discriminate].
+    cbn [with_slices]. destruct (split_bytes (e - b) data) as [[sl rest]|] eqn:E1; [|discriminate].
+    apply split_bytes_sound in E1. destruct E1 as [E1 E2]. destruct (IH _ _ H) as [A B].
+    assert (b = pos /\ b < e) as [-> Hlt] by lia.
+    split.
+    + cbn [tiles]. split; [reflexivity|]. split; [intros ->; cbn in E2; lia|]. split; [lia|]. exists rest. auto.
+    + cbn [map fst snd]. rewrite B. reflexivity.
+Qed.
+
+Lemma all_cdot_spec : forall n t, all_cdot n t = true -> t = repeat F.CDOT n ++ skipn n t.
+Proof.
+  induction n as [|n IH]; intros t H; [reflexivity|]. cbn [all_cdot] in H.
+  destruct t as [|c r]; [discriminate|]. destruct (is_cdot c) eqn:E; [|discriminate].
+  unfold is_cdot in E. assert (c = F.CDOT) by lia. subst c. cbn [repeat skipn app]. f_equal. apply IH. assumption.
+Qed.
+
+Lemma rev_tags_spec : forall fuel n rt, rev_tags fuel n rt = true ->
+  exists ts h', length ts = n /\ Forall (fun w => In w F.BR_TAGS /\ w <> []) ts /\ rt = rev (concat ts) ++ h'.
+Proof.
+  induction fuel as [|f IH]; intros n rt H.
+  - destruct n; [|discriminate]. exists [], rt. cbn. auto.
+  - destruct n as [|k]; [exists [], rt; cbn; auto|]. cbn [rev_tags] in H.
+    rewrite existsb_exists in H. destruct H as [w [Hin Hw]]. destruct w as [|a w']; [discriminate|].
+    set (w := a :: w') in *. destruct (starts_with (rev w) rt) eqn:E; [|discriminate].
+    apply starts_with_spec in E. rewrite rev_length in E. destruct E as [E1 E2].
+    destruct (IH _ _ Hw) as [ts [h' [A [B C]]]].
+    exists (ts ++ [w]), h'. split; [rewrite app_length; cbn; lia|]. split.
+    + apply Forall_app. split; [assumption|]. constructor; [|constructor]. split; [assumption|unfold w; congruence].
+    + rewrite concat_app. cbn [concat]. rewrite app_nil_r, rev_app_distr, <- app_assoc, <- C, <- E1. symmetry. apply firstn_skipn.
+Qed.
+
+Lemma Forall_rev {A} (P : A -> Prop) l : Forall P l -> Forall P (rev l).
+Proof. rewrite !Forall_forall. intros H x Hx. apply H. apply in_rev. assumption. Qed.
+
+Lemma rev_repeat {A} (x : A) n : rev (repeat x n) = repeat x n.
+Proof.
+  induction n as [|n IH]; [reflexivity|]. cbn [repeat rev]. rewrite IH.
+  clear IH. induction n as [|n IH]; [reflexivity|]. cbn [repeat app]. f_equal. exact IH.
+Qed.
+
+Lemma ends_after_terminator_b_sound t : ends_after_terminator_b t = true -> ends_with_terminator t.
+Proof.
+  unfold ends_after_terminator_b. rewrite rev_append_rev, app_nil_r.
+  set (rt := rev t). set (k := span is_trailer rt).
+  assert (Ht : t = rev (skipn k rt) ++ rev (firstn k rt)).
+  { rewrite <- rev_app_distr, firstn_skipn. unfold rt. symmetry. apply rev_involutive. }
+  assert (Htr : Forall trailer (firstn k rt)) by (apply span_Forall).
+  destruct (existsb is_more (firstn k rt)) eqn:E.
+  - intros _. rewrite existsb_exists in E. destruct E as [c [Hin Hc]].
+    destruct (in_split _ _ Hin) as [l1 [l2 Hs]].
+    exists (rev (skipn k rt) ++ rev l2), [c], (rev l1). split.
+    + rewrite Ht, Hs, rev_app_distr. cbn [rev]. rewrite <- !app_assoc. reflexivity.
+    + split.
+      * unfold is_more in Hc. destruct (is_dot c) eqn:Ed; [apply T_dot; assumption|apply T_period; lia].
+      * apply Forall_rev. rewrite Hs in Htr. apply Forall_app in Htr. tauto.
+  - destruct (all_cdot (Nat.max 1 F.CDOTS_MIN) (skipn k rt)) eqn:E2.
+    + intros _. apply all_cdot_spec in E2. set (n := Nat.max 1 F.CDOTS_MIN) in *.
+      exists (rev (skipn n (skipn k rt))), (repeat F.CDOT n), (rev (firstn k rt)). split.
+      * rewrite Ht at 1. rewrite E2 at 1. rewrite rev_app_distr, rev_repeat, <- app_assoc. reflexivity.
+      * split; [apply T_cdots; lia|apply Forall_rev; assumption].
+    + intros H. apply rev_tags_spec in H. destruct H as [ts [h' [A [B C]]]].
+      exists (rev h'), (concat ts), (rev (firstn k rt)). split.
+      * rewrite Ht at 1. rewrite C. rewrite rev_app_distr, rev_involutive, <- app_assoc. reflexivity.
+      * split; [|apply Forall_rev; assumption]. apply T_br.
+        -- lia.
+        -- eapply Forall_impl; [|exact B]. cbn. tauto.
+        -- destruct ts as [|w ts]; [cbn in A; lia|]. apply Forall_inv in B. destruct B as [_ Hne]. destruct w; [congruence|]. cbn. congruence.
+Qed.
